@@ -1,13 +1,18 @@
 //! vcheck — property-based verification harness for scpi-rs (see /verif/DESIGN.md).
 pub mod alloc_count;
 pub mod bytes;
+#[cfg(feature = "full")]
 pub mod cap;
 pub mod conv;
+#[cfg(feature = "full")]
 pub mod dev488;
 pub mod engine;
+#[cfg(feature = "full")]
 pub mod fixtree;
 pub mod model;
+#[cfg(feature = "full")]
 pub mod na;
 pub mod gen;
 pub mod props;
+#[cfg(feature = "full")]
 pub mod rec;
